@@ -31,4 +31,30 @@ PROPS = {
         "bounds": "scalar pairs/triples over all f64/bool/null; lists of length <= 2 of numbers",
         "outside": "records (IndexMap), strings beyond the fixed table, lists longer than 2",
     },
+    "C14": {
+        "engine": "kani", "module": "c14", "timeout": {"quick": 900, "thorough": 2400},
+        "functions": ["expressions::evaluate_ast (Expr::Access, Expr::List with spreads)", "functions::BuiltInFunction::call (Len, Head, Tail, Slice, Concat, Unique, Sort, Reverse, Flatten, Zip, Chunk, Range)"],
+        "bounds": "lists of numbers of length <= 3 (any f64 payload; NaN excluded where order matters); index / slice bounds / chunk size symbolic integral doubles in a small range, any double for the totality harness",
+        "outside": "strings (byte- vs character-based functions), records (keys/values/entries, group_by, count_by: IndexMap), sort_by, split/join, lists longer than 3; fractional indices (the statement does not define them)",
+    },
+    "C15": {
+        "engine": "kani", "module": "c15", "timeout": {"quick": 900, "thorough": 2400},
+        "functions": ["functions::BuiltInFunction::call (Min, Max, Avg, Sum, Prod, Median, Percentile; list and varargs branches)"],
+        "bounds": "1..3 numbers (4 for percentile membership); sum/prod/avg with mantissas restricted to the top few bits (two adder/multiplier circuits must be proved equivalent), min/max/median/percentile any non-NaN double; percentile p, q any doubles in [0,100]",
+        "outside": "more than 3 numbers, rounding bounds of long sums, permutation invariance beyond what list-vs-varargs and the order-statistic references imply",
+    },
+    "C01": {
+        "engine": "kani", "module": "c01", "timeout": {"quick": 900, "thorough": 2400},
+        "functions": ["functions::BuiltInFunction::call (all arms reachable with scalar / short-list arguments)", "expressions::evaluate_ast (PostfixOp, UnaryOp, Spread, Access)"],
+        "bounds": "arguments: any f64 / bool / null, lists of 0..2 numbers; loops proportional to a numeric argument (range longer than 1 element, factorial above 6) are assumed away and stated",
+        "outside": "parsing, source formatting, error rendering (ariadne), JSON, records, lambdas as arguments, strings, float->text inside to_string/format",
+        "assumptions": ["panic-freedom harnesses are `cut` harnesses: constructing an anyhow type-error value ends the path (what follows is `?` propagation)"],
+    },
+    "C18": {
+        "engine": "kani", "module": "c18", "timeout": {"quick": 900, "thorough": 2400},
+        "functions": ["functions::FunctionDef::call (depth guard, built-in branch)", "functions::FunctionDef::check_arity"],
+        "bounds": "call_depth: any usize; one built-in callee",
+        "outside": "that 1000 nested calls fit the native stack and that a few hundred levels complete in the release CLI (CBMC has no stack model); lambda callees (Environment/HashMap)",
+        "assumptions": ["std::time::Instant::now stubbed with a fixed instant (only stored in the call-statistics log)"],
+    },
 }
